@@ -3,7 +3,7 @@ From Coq Require Import List NArith ZArith Bool String.
 Import ListNotations.
 From VF Require Import C11.Proofs C11.ProofsR C11.ProofsS.
 From VF Require Import common.Lin C13.Model C13.Proofs C13.Corr C13.Table C13.ProofsC C13.ProofsD C13.Deadlock.
-From VF Require Import C13.Rendezvous C13.ProofsRv.
+From VF Require Import C13.Rendezvous C13.ProofsRv C13.Layers.
 From VF Require C13.TableAsIs.
 Local Open Scope N_scope.
 
@@ -157,6 +157,36 @@ Theorem no_deadlock : forall (gs : list (list Gen_C13.meth)) (sched : list nat),
   existsb (unfinished string) ts = true -> existsb (enabled string String.eqb ts) ts = true.
 Proof. intros gs sched Hg. apply table_no_deadlock; [|exact Hg]. vm_compute. reflexivity. Qed.
 Print Assumptions no_deadlock.
+
+(* ---------- lock order ACROSS the layers of a stack (C13/Layers.v) ---------- *)
+(* every method's critical sections and its calls through fields (with the mutexes held at the call), over the table
+   regenerated from /repo, follow the in-package order *)
+Theorem layer_footprints_ordered_ok : layer_footprints_ordered = true.
+Proof. vm_compute. reflexivity. Qed.
+Print Assumptions layer_footprints_ordered_ok.
+
+(* DEADLOCK FREEDOM ACROSS LAYERS: for EVERY stack of packages below the entry points (any packages of the table, ANY
+   depth), with every call through a field expanded into the footprints of all methods of that name of the package
+   below (recursively, mutexes tagged with the depth of their layer), ANY number of goroutines calling ANY sequences of
+   methods under ANY schedule never reach a configuration in which every unfinished goroutine is blocked *)
+Theorem stack_no_deadlock : forall (below : list string) (gs : list (list Gen_C13.meth)) (sched : list nat),
+  (forall g m, In g gs -> In m g -> In m Gen_C13.table) ->
+  let ts := lexec dlock dleqb (map (mkL dlock []) (map (flat_map (fun m => expand below 0 (dfoot m))) gs)) sched in
+  existsb (unfinished dlock) ts = true -> existsb (enabled dlock dleqb ts) ts = true.
+Proof. intros below gs sched Hg. apply stack_table_no_deadlock; [|exact Hg]. vm_compute. reflexivity. Qed.
+Print Assumptions stack_no_deadlock.
+
+(* non-vacuity: cachedstore.store.Put over batchedstore over formattedstore over mem: the expansion takes the mutexes of
+   all four layers, nested (depth 0 held while depth 1.. are taken) *)
+Example stack_nonvacuous :
+  let put := match find_meth "cachedstore.store.Put" Gen_C13.table with Some m => m | None => Gen_C13.mkMeth "" true [] [] [] [] end in
+  let p := expand ["batchedstore"; "formattedstore"; "mem"]%string 0 (dfoot put) in
+  existsb (fun a => match a with Acq _ (3%nat, "mem.memStore.RWMutex"%string) => true | _ => false end) p = true /\
+  existsb (fun a => match a with Acq _ (1%nat, "batchedstore.store.RWMutex"%string) => true | _ => false end) p = true /\
+  runb dlock dleqb drank [] p = Some [] /\
+  (* a goroutine that holds the cachedstore mutex blocks a second one at its first acquisition; the first can move *)
+  (let ts := lexec dlock dleqb (map (mkL dlock []) [p; p]) [0; 1; 1]%nat in map (enabled dlock dleqb ts) ts = [true; false]).
+Proof. vm_compute. repeat split; reflexivity. Qed.
 
 (* the general statement: any goroutines that acquire in strictly increasing rank and end with nothing held *)
 Theorem ordered_locking_never_deadlocks :
